@@ -1,7 +1,10 @@
 use rusty_common::*;
-use rusty_parser::{CaseBlock, CaseExpression, ExpressionPos, Operator, SelectCase, Statements};
+use rusty_parser::{
+    BareName, CaseBlock, CaseExpression, ExpressionPos, ExpressionType, HasExpressionType, Name,
+    Operator, SelectCase, Statements, TypeQualifier,
+};
 
-use super::{Instruction, InstructionGenerator, Visitor};
+use super::{Instruction, InstructionGenerator, RootPath, Visitor};
 
 impl InstructionGenerator {
     pub fn generate_select_case_instructions(&mut self, s: SelectCase, pos: Position) {
@@ -11,26 +14,48 @@ impl InstructionGenerator {
             else_block,
             ..
         } = s;
-        self.generate_eval_select_case_expr(expr, pos);
-        self.generate_case_blocks(case_blocks, else_block.is_some(), pos);
+        let subject = self.generate_eval_select_case_expr(expr, pos);
+        self.generate_case_blocks(case_blocks, else_block.is_some(), &subject, pos);
         self.generate_else_block(else_block, pos);
         self.label(labels::end_select(), pos);
-        // need to pop value from stack because it was pushed by `generate_eval_select_case_expr`
-        self.push(Instruction::PopValueStackIntoA, pos);
     }
 
-    /// Evaluate SELECT CASE x into A
-    fn generate_eval_select_case_expr(&mut self, expr: ExpressionPos, pos: Position) {
+    /// The name of the hidden variable that holds the value of the SELECT CASE expression
+    /// (no program can spell it). It lives in the current scope, so that leaving
+    /// the SELECT CASE block by any kind of jump leaves nothing behind.
+    fn select_case_hidden_variable(q: TypeQualifier, pos: Position) -> Name {
+        Name::qualified(
+            BareName::new(format!("select:{}:{}", pos.row(), pos.col())),
+            q,
+        )
+    }
+
+    /// Evaluate SELECT CASE x into the hidden variable
+    fn generate_eval_select_case_expr(&mut self, expr: ExpressionPos, pos: Position) -> RootPath {
+        let q = match expr.expression_type() {
+            ExpressionType::BuiltIn(q) => q,
+            _ => TypeQualifier::DollarString,
+        };
+        let subject = RootPath {
+            name: Self::select_case_hidden_variable(q, pos),
+            shared: false,
+        };
         self.generate_expression_instructions(expr);
-        // RESUME NEXT after a failing SELECT CASE expression continues here,
-        // so that the value stack still gets the entry that END SELECT pops
+        self.push(Instruction::VarPathName(subject.clone()), pos);
+        self.push(Instruction::CopyAToVarPath, pos);
+        // RESUME NEXT after a failing SELECT CASE expression continues with the CASE expressions,
+        // RESUME after a failing CASE expression evaluates the CASE expressions again
         self.mark_statement_address();
-        self.push(Instruction::PushAToValueStack, pos);
-        // the CASE expressions are evaluated with the SELECT CASE expression on the value stack
-        self.mark_statement_address();
+        subject
     }
 
-    fn generate_case_blocks(&mut self, case_blocks: Vec<CaseBlock>, has_else: bool, pos: Position) {
+    fn generate_case_blocks(
+        &mut self,
+        case_blocks: Vec<CaseBlock>,
+        has_else: bool,
+        subject: &RootPath,
+        pos: Position,
+    ) {
         let case_blocks_len = case_blocks.len();
         for (case_block_index, case_block) in case_blocks.into_iter().enumerate() {
             // mark the beginning of this case block
@@ -45,6 +70,7 @@ impl InstructionGenerator {
             self.generate_case_expressions(
                 expression_list,
                 next_case_label.as_str(),
+                subject,
                 pos,
                 case_block_index,
             );
@@ -73,6 +99,7 @@ impl InstructionGenerator {
         &mut self,
         case_expressions: Vec<CaseExpression>,
         next_case_label: &str,
+        subject: &RootPath,
         pos: Position,
         case_block_index: usize,
     ) {
@@ -94,7 +121,7 @@ impl InstructionGenerator {
                     // otherwise we jump to the next CASE expr within the same CASE block
                     labels::case_expr(case_block_index, case_expr_index + 1)
                 };
-                self.generate_case_expression(case_expr, &next_label, pos);
+                self.generate_case_expression(case_expr, &next_label, subject, pos);
                 if !is_last {
                     // if this expression matched, jump directly into the CASE block statements and do not evaluate the rest
                     self.jump(&labels::case_statements(case_block_index), pos);
@@ -103,7 +130,7 @@ impl InstructionGenerator {
         } else {
             // single expr is simpler
             for case_expr in case_expressions {
-                self.generate_case_expression(case_expr, next_case_label, pos);
+                self.generate_case_expression(case_expr, next_case_label, subject, pos);
             }
         }
     }
@@ -112,17 +139,18 @@ impl InstructionGenerator {
         &mut self,
         case_expression: CaseExpression,
         next_case_label: &str,
+        subject: &RootPath,
         pos: Position,
     ) {
         match case_expression {
             CaseExpression::Simple(e) => {
-                self.generate_case_expr_simple(e, next_case_label, pos);
+                self.generate_case_expr_simple(e, next_case_label, subject, pos);
             }
             CaseExpression::Is(op, e) => {
-                self.generate_case_expr_is(op, e, next_case_label, pos);
+                self.generate_case_expr_is(op, e, next_case_label, subject, pos);
             }
             CaseExpression::Range(from, to) => {
-                self.generate_case_expr_range(from, to, next_case_label, pos);
+                self.generate_case_expr_range(from, to, next_case_label, subject, pos);
             }
         }
     }
@@ -131,9 +159,10 @@ impl InstructionGenerator {
         &mut self,
         e: ExpressionPos,
         next_case_label: &str,
+        subject: &RootPath,
         pos: Position,
     ) {
-        self.generate_comparison_expr(e, pos);
+        self.generate_comparison_expr(e, subject, pos);
         self.push(Instruction::Equal, pos);
         self.jump_if_false(next_case_label, pos);
     }
@@ -143,9 +172,10 @@ impl InstructionGenerator {
         op: Operator,
         e: ExpressionPos,
         next_case_label: &str,
+        subject: &RootPath,
         pos: Position,
     ) {
-        self.generate_comparison_expr(e, pos);
+        self.generate_comparison_expr(e, subject, pos);
         match op {
             Operator::Less => self.push(Instruction::Less, pos),
             Operator::LessOrEqual => self.push(Instruction::LessOrEqual, pos),
@@ -163,27 +193,34 @@ impl InstructionGenerator {
         from: ExpressionPos,
         to: ExpressionPos,
         next_case_label: &str,
+        subject: &RootPath,
         pos: Position,
     ) {
-        self.generate_comparison_expr(from, pos);
+        self.generate_comparison_expr(from, subject, pos);
         // compare select expr with lower bound, must be >=
         self.push(Instruction::GreaterOrEqual, pos);
         // jump out if it isn't >=
         self.jump_if_false(next_case_label, pos);
         // evaluate to -> A
-        self.generate_comparison_expr(to, pos);
+        self.generate_comparison_expr(to, subject, pos);
         self.push(Instruction::LessOrEqual, pos);
         self.jump_if_false(next_case_label, pos);
     }
 
-    fn generate_comparison_expr(&mut self, comparison_expr: ExpressionPos, pos: Position) {
+    fn generate_comparison_expr(
+        &mut self,
+        comparison_expr: ExpressionPos,
+        subject: &RootPath,
+        pos: Position,
+    ) {
         // evaluate the comparison expression into A
         self.generate_expression_instructions(comparison_expr);
         // copy from -> B
         self.push(Instruction::CopyAToB, pos);
         // get select expr back into A
-        self.push(Instruction::PopValueStackIntoA, pos);
-        self.push(Instruction::PushAToValueStack, pos);
+        self.push(Instruction::VarPathName(subject.clone()), pos);
+        self.push(Instruction::CopyVarPathToA, pos);
+        self.push(Instruction::PopVarPath, pos);
     }
 }
 
